@@ -259,9 +259,13 @@ class Report(object):
             cands.append((v, k))
         max_confirm = int(os.environ.get('VERIF_MAX_CONFIRM', '6'))
         self.stats['violating_executions'] = len(groups)
+        # unknown violations first: known findings must never use up the
+        # confirmation slots of a violation that no entry matches
+        cands.sort(key=lambda x: x[1] is not None)
+        n_known = sum(1 for _, k in cands if k is not None)
         n = 0
         todo = []
-        for v, k in cands[:max_confirm]:
+        for v, k in cands[:max_confirm + n_known]:
             scn = v.pop('_scn', None)
             n += 1
             path = os.path.join(REPLAYS, '%s-%d.json' % (self.prop, n))
@@ -298,6 +302,38 @@ class Report(object):
                 continue
             unknown.append((v, path))
         self.stats['violations_not_replayed'] = max(0, len(cands) - len(todo))
+        if not unknown and len(cands) > len(todo):
+            # more unknown candidates than confirmation slots and none of the
+            # replayed ones reproduced: replay the rest one by one
+            for v, k in cands[len(todo):]:
+                scn = v.pop('_scn', None)
+                n += 1
+                path = os.path.join(REPLAYS, '%s-%d.json' % (self.prop, n))
+                doc = {'property': self.prop, 'scenario': v['scenario'],
+                       'spec': scn.spec() if scn is not None else None,
+                       'describe': scn.describe() if scn is not None
+                       else None,
+                       'choices': v['path'], 'kind': v['kind'],
+                       'assertion': v['message']}
+                if v.get('path_b') is not None:
+                    doc['choices_b'] = v['path_b']
+                    if v.get('spec_b') is not None:
+                        doc['spec_b'] = v['spec_b']
+                with open(path, 'w') as f:
+                    json.dump(doc, f, indent=1, default=str)
+                ok, why = finish_confirm(start_confirm(self.prop, path)) \
+                    if confirm else (True, '')
+                if ok and k is not None:
+                    print('KNOWN-FINDING: property=%s %s'
+                          % (self.prop, k['what']))
+                    self.known_hits.append(k['what'])
+                    continue
+                if ok:
+                    unknown.append((v, path))
+                    break
+                self.harness_errors.append(
+                    {'scenario': v['scenario'], 'replay': path,
+                     'why': 'violation not reproduced by replayer: ' + why})
         cov = {
             'states': max(1, self.stats['states']),
             'transitions': max(1, self.stats['transitions']),
